@@ -426,7 +426,207 @@ pub fn run(cx: &mut Ctx) {
     cx.note("calls_per_entry_point", json!(n));
     if !only_nightly {
         across_fork(cx, &eps);
+        os_source_refused(cx, &eps);
+        if cx.mine(77_777) && cx.tier != crate::ctx::Tier::Tiny {
+            signal_storm(cx);
+        }
     }
+}
+
+/// fault injection on the OS random source: in a forked child a seccomp filter makes getrandom(2) fail with EIO; every
+/// entry point is then called a few times. Not returning (a panic) is fine, and so is a working fallback source; what
+/// must not happen is a *returned* value that repeats or is all-zero, i.e. a buffer handed back without having been filled
+fn os_source_refused(cx: &mut Ctx, eps: &[(&'static str, Gen)]) {
+    if !cx.mine(88_888) {
+        return;
+    }
+    let list: Vec<&(&'static str, Gen)> = eps.iter().filter(|(n, _)| !n.to_lowercase().contains("pwhash") && !n.contains("257..600") && !n.contains("Heap") && !n.to_lowercase().contains("locked")).collect();
+    let mut fds = [0i32; 2];
+    if unsafe { libc::pipe(fds.as_mut_ptr()) } != 0 {
+        return;
+    }
+    let pid = unsafe { libc::fork() };
+    if pid < 0 {
+        return;
+    }
+    if pid == 0 {
+        unsafe {
+            let filter = [
+                libc::BPF_STMT((libc::BPF_LD | libc::BPF_W | libc::BPF_ABS) as u16, 0),
+                libc::BPF_JUMP((libc::BPF_JMP | libc::BPF_JEQ | libc::BPF_K) as u16, libc::SYS_getrandom as u32, 0, 1),
+                libc::BPF_STMT((libc::BPF_RET | libc::BPF_K) as u16, libc::SECCOMP_RET_ERRNO | libc::EIO as u32),
+                libc::BPF_STMT((libc::BPF_RET | libc::BPF_K) as u16, libc::SECCOMP_RET_ALLOW),
+            ];
+            let prog = libc::sock_fprog { len: filter.len() as u16, filter: filter.as_ptr() as *mut libc::sock_filter };
+            let mut buf: Vec<u8> = Vec::with_capacity(1 << 16);
+            let ok = libc::prctl(libc::PR_SET_NO_NEW_PRIVS, 1, 0, 0, 0) == 0 && libc::syscall(libc::SYS_seccomp, libc::SECCOMP_SET_MODE_FILTER, 0, &prog as *const libc::sock_fprog) == 0;
+            // self-test of the injection: the system call must now fail
+            let mut probe = [0u8; 8];
+            let injected = ok && libc::syscall(libc::SYS_getrandom, probe.as_mut_ptr(), 8usize, 0u32) < 0;
+            buf.push(injected as u8);
+            if injected {
+                for (_, f) in &list {
+                    for _ in 0..3 {
+                        match std::panic::catch_unwind(|| f()) {
+                            Ok(vals) => {
+                                buf.push(1);
+                                buf.push(vals.len() as u8);
+                                for v in vals {
+                                    let v = &v[..v.len().min(64)];
+                                    buf.push(v.len() as u8);
+                                    buf.extend_from_slice(v);
+                                }
+                            }
+                            Err(_) => buf.push(0),
+                        }
+                    }
+                }
+            }
+            let mut off = 0usize;
+            while off < buf.len() {
+                let w = libc::write(fds[1], buf[off..].as_ptr() as *const libc::c_void, buf.len() - off);
+                if w <= 0 {
+                    break;
+                }
+                off += w as usize;
+            }
+            libc::_exit(0);
+        }
+    }
+    unsafe { libc::close(fds[1]) };
+    let mut raw: Vec<u8> = Vec::new();
+    let mut chunk = [0u8; 65536];
+    loop {
+        let r = unsafe { libc::read(fds[0], chunk.as_mut_ptr() as *mut libc::c_void, chunk.len()) };
+        if r <= 0 {
+            break;
+        }
+        raw.extend_from_slice(&chunk[..r as usize]);
+    }
+    unsafe { libc::close(fds[0]) };
+    let mut status = 0i32;
+    unsafe { libc::waitpid(pid, &mut status, 0) };
+    if raw.first() != Some(&1) {
+        cx.cover("os_source_refused", "injection_not_available(seccomp refused or child died)");
+        return;
+    }
+    let mut pos = 1usize;
+    'eps: for (name, _) in &list {
+        let mut per_call: Vec<Vec<Vec<u8>>> = Vec::new();
+        for _ in 0..3 {
+            let Some(&flag) = raw.get(pos) else { break 'eps };
+            pos += 1;
+            if flag == 0 {
+                continue;
+            }
+            let Some(&nv) = raw.get(pos) else { break 'eps };
+            pos += 1;
+            let mut vals = Vec::new();
+            for _ in 0..nv {
+                let Some(&l) = raw.get(pos) else { break 'eps };
+                pos += 1;
+                if pos + l as usize > raw.len() {
+                    break 'eps;
+                }
+                vals.push(raw[pos..pos + l as usize].to_vec());
+                pos += l as usize;
+            }
+            per_call.push(vals);
+        }
+        cx.eval();
+        if per_call.is_empty() {
+            cx.cover("os_source_refused", "does_not_return");
+            continue;
+        }
+        cx.cover("os_source_refused", "returns(values examined)");
+        let ncomp = per_call[0].len();
+        for c in 0..ncomp {
+            let vs: Vec<&Vec<u8>> = per_call.iter().filter_map(|call| call.get(c)).filter(|v| v.len() >= 16).collect();
+            if vs.is_empty() {
+                continue;
+            }
+            let zero = vs.iter().any(|v| v.iter().all(|b| *b == 0));
+            let repeated = vs.len() >= 2 && vs.iter().skip(1).any(|v| *v == vs[0]);
+            // a public key derived from a repeated secret repeats as well: only judge the raw outputs and first components
+            if zero || repeated {
+                cx.violation(&format!("C11|{}|returns_unfilled_value_when_os_random_source_fails", name), json!({"component":c,"calls_that_returned":per_call.len(),"all_zero":zero,"repeated":repeated,"first":hx(vs[0])}));
+                break;
+            }
+        }
+    }
+}
+
+extern "C" fn noop_handler(_: libc::c_int) {}
+
+/// large draws while the drawing thread is hit by a handled signal every few microseconds: the kernel may answer a big
+/// getrandom(2) request partially; the library has to keep asking until the buffer is full
+fn signal_storm(cx: &mut Ctx) {
+    use std::sync::atomic::{AtomicBool, Ordering};
+    use std::sync::Arc;
+    let big = cx.tier.pick(1usize << 20, 16 << 20, 48 << 20);
+    unsafe {
+        let mut sa: libc::sigaction = std::mem::zeroed();
+        sa.sa_sigaction = noop_handler as *const () as usize;
+        sa.sa_flags = 0; // no SA_RESTART
+        libc::sigaction(libc::SIGUSR1, &sa, std::ptr::null_mut());
+    }
+    let me = unsafe { libc::pthread_self() } as usize;
+    let stop = Arc::new(AtomicBool::new(false));
+    let stop2 = stop.clone();
+    let sent = Arc::new(std::sync::atomic::AtomicUsize::new(0));
+    let sent2 = sent.clone();
+    let t = std::thread::spawn(move || {
+        while !stop2.load(Ordering::SeqCst) {
+            unsafe { libc::pthread_kill(me as libc::pthread_t, libc::SIGUSR1) };
+            sent2.fetch_add(1, Ordering::SeqCst);
+            std::thread::sleep(std::time::Duration::from_micros(30));
+        }
+    });
+    let mut bufs: Vec<(String, Vec<u8>)> = Vec::new();
+    let r = guard("signal_storm", || {
+        let mut out = Vec::new();
+        for i in 0..3 {
+            out.push((format!("randombytes_buf#{}", i), randombytes_buf(big)));
+        }
+        let mut b = vec![0u8; big];
+        copy_randombytes(&mut b);
+        out.push(("copy_randombytes".to_string(), b));
+        out
+    });
+    stop.store(true, Ordering::SeqCst);
+    let _ = t.join();
+    unsafe {
+        libc::signal(libc::SIGUSR1, libc::SIG_IGN);
+    }
+    match r {
+        Ok(v) => bufs = v,
+        Err(p) => cx.violation("C11|randombytes_buf|panic|under_signal_storm", json!({"panic":p.msg})),
+    }
+    for (name, b) in &bufs {
+        cx.eval();
+        if b.len() != big {
+            cx.violation("C11|randombytes_buf|unexpected_length|under_signal_storm", json!({"what":name,"len":b.len(),"want":big}));
+            continue;
+        }
+        let mut empty = 0usize;
+        let nwin = b.len() / 4096;
+        for w in 0..nwin {
+            if b[w * 4096..(w + 1) * 4096].iter().all(|x| *x == 0) {
+                empty += 1;
+            }
+        }
+        if empty > 0 {
+            cx.violation("C11|randombytes_buf|undrawn_region_in_large_request|under_signal_storm", json!({"what":name,"request":big,"all_zero_4k_windows":empty,"of":nwin,"signals_sent":sent.load(Ordering::SeqCst)}));
+        }
+    }
+    for i in 1..bufs.len() {
+        cx.eval();
+        if bufs[i].1.len() == big && bufs[0].1.len() == big && (0..big / 4096).any(|w| bufs[i].1[w * 4096..(w + 1) * 4096] == bufs[0].1[w * 4096..(w + 1) * 4096]) {
+            cx.violation("C11|randombytes_buf|repeated_region_in_large_requests|under_signal_storm", json!({"request":big}));
+        }
+    }
+    cx.cover("signal_storm", &format!("request={} MiB", big >> 20));
+    cx.note("signal_storm", json!({"signals_sent":sent.load(Ordering::SeqCst),"request_bytes":big}));
 }
 
 /// freshness across fork(2): the library is used once (so that any user-space pool or cached state exists), the process
